@@ -91,6 +91,7 @@ def parseEvent (tok : String) : Option Event :=
     else if c = 'm' then arg.toNat?.map .setMaxIdle
     else if c = 's' then arg.toNat?.map .setTimeout
     else if c = 'i' then (if arg = "" then some .io else none)
+    else if c = 'w' then arg.toNat?.bind fun k => if k < 3 then some (.ownClient k) else none
     else if c = 'F' then (if arg = "" then some .freeContext else none)
     else none
 
@@ -129,7 +130,8 @@ def showState (st : St) : String :=
   "/" ++ toString (st.idleOn 2 COAP_PROTO_TCP).length
 
 def showLive (st : St) : String :=
-  "L" ++ toString st.sessions.length ++ "/" ++ toString (st.holders.filter fun h => isAnyObs h.kind).length ++ "/" ++
+  -- live coap_session_t objects: the endpoints' tables and the client sessions of context->sessions
+  "L" ++ toString (st.sessions.length + (if st.freed then 0 else st.nown)) ++ "/" ++ toString (st.holders.filter fun h => isAnyObs h.kind).length ++ "/" ++
   -- coap_queue_t objects alive: the queued messages (holders) and the nodes waiting in the sessions' delay queues
   toString ((st.holders.filter fun h => isNode h.kind).length +
     (st.partials.filter fun x => st.sessions.any fun s => s.sid == x.2 && !s.peer.reliable).length) ++ "/" ++
